@@ -1,13 +1,35 @@
 /-
 C04 — Retries are bounded, counted and backed off as configured.
+Model: `Worker.retryChain` (RepidModel/Worker/Chain.lean) driven by the ladder `Worker.report`;
+predicate: `Pred.C04.chainOk` (also evaluated on chains observed from the implementation).
 -/
-import RepidModel.Worker.Chain
+import RepidModel.Pred.Worker
 
 namespace Repid.C04
-open Repid Worker
+open Repid Worker Pred.C04
 
-/-- the retry branch of the ladder is taken exactly when the execution failed and retries remain -/
-theorem retry_iff (p : Params) (success : Bool) (now : Int) (cron : String → Int → Int) (pn : Int) :
+variable (policy : Int → Int) (cron : String → Int → Int) (fails : Nat → Bool) (dur lat : Nat → Int)
+
+/-- the execution the chain records for the delivery of `p` at `start` as its k-th execution -/
+def execOf (k : Nat) (p : Params) (start : Int) : Exec :=
+  { start := start, params := p,
+    call := report p (!fails k) (start + dur k) cron (policy (p.retries.alreadyTried + 1)),
+    fin := start + dur k, failed := fails k }
+
+/-- one-step unfolding of the chain -/
+theorem chain_unfold (fuel k : Nat) (p : Params) (start : Int) :
+    retryChain policy cron fails dur lat (fuel + 1) k p start =
+      if fails k = true ∧ p.retries.alreadyTried < p.retries.maxAmount then
+        execOf policy cron fails dur k p start ::
+          retryChain policy cron fails dur lat fuel (k + 1)
+            (p.prepareRetry (start + dur k) (policy (p.retries.alreadyTried + 1)))
+            (start + dur k + policy (p.retries.alreadyTried + 1) + lat (k + 1))
+      else [execOf policy cron fails dur k p start] := by
+  simp only [retryChain, execOf, Bool.and_eq_true, decide_eq_true_eq]
+
+/-- the retry branch of the ladder is taken exactly when the execution failed and retries remain;
+    otherwise the answer is ack, nack or a reschedule -/
+theorem retry_iff (p : Params) (success : Bool) (now : Int) (pn : Int) :
     (report p success now cron pn = .requeue (p.prepareRetry now pn) ∧ success = false ∧
         p.retries.alreadyTried < p.retries.maxAmount) ∨
     ((success = true ∨ ¬ p.retries.alreadyTried < p.retries.maxAmount) ∧
@@ -22,73 +44,225 @@ theorem retry_iff (p : Params) (success : Bool) (now : Int) (cron : String → I
 theorem counter_step (p : Params) (now d : Int) :
     (p.prepareRetry now d).retries.alreadyTried = p.retries.alreadyTried + 1 ∧
     (p.prepareRetry now d).retries.maxAmount = p.retries.maxAmount ∧
-    (p.prepareRetry now d).delay.nextExecutionTime = some (now + d) := by
-  simp [Params.prepareRetry]
+    (p.prepareRetry now d).delay.nextExecutionTime = some (now + d) ∧
+    isRecurring (p.prepareRetry now d) = isRecurring p := by
+  simp [Params.prepareRetry, isRecurring]
 
-/-- shape of a chain: it always starts with the execution of the delivered message -/
-theorem chain_head (policy : Int → Int) (cron : String → Int → Int) (fails : Nat → Bool)
-    (dur lat : Nat → Int) (fuel k : Nat) (p : Params) (start : Int) :
+@[simp] theorem tried_prepareRetry (p : Params) (now d : Int) :
+    (p.prepareRetry now d).retries.alreadyTried = p.retries.alreadyTried + 1 := rfl
+@[simp] theorem max_prepareRetry (p : Params) (now d : Int) :
+    (p.prepareRetry now d).retries.maxAmount = p.retries.maxAmount := rfl
+
+/-! ### the conjuncts of `chainOk`, each by induction on the chain -/
+
+def toObs (e : Exec) : Obs :=
+  { tried := e.params.retries.alreadyTried, start := e.start, fin := e.fin, failed := e.failed }
+
+theorem counters_ok (fuel : Nat) : ∀ (k : Nat) (p : Params) (start : Int),
+    countersOk p.retries.alreadyTried ((retryChain policy cron fails dur lat fuel k p start).map toObs) = true := by
+  induction fuel with
+  | zero => intro k p start; simp [retryChain, countersOk]
+  | succ f ih =>
+    intro k p start
+    rw [chain_unfold]
+    split
+    · have := ih (k + 1) (p.prepareRetry (start + dur k) (policy (p.retries.alreadyTried + 1)))
+        (start + dur k + policy (p.retries.alreadyTried + 1) + lat (k + 1))
+      simp only [tried_prepareRetry] at this
+      simp [countersOk, toObs, execOf, this]
+    · simp [countersOk, toObs, execOf]
+
+theorem only_last_may_succeed (fuel : Nat) : ∀ (k : Nat) (p : Params) (start : Int),
+    onlyLastMaySucceed ((retryChain policy cron fails dur lat fuel k p start).map toObs) = true := by
+  induction fuel with
+  | zero => intro k p start; simp [retryChain, onlyLastMaySucceed]
+  | succ f ih =>
+    intro k p start
+    rw [chain_unfold]
+    split
+    · next h =>
+      have := ih (k + 1) (p.prepareRetry (start + dur k) (policy (p.retries.alreadyTried + 1)))
+        (start + dur k + policy (p.retries.alreadyTried + 1) + lat (k + 1))
+      cases hc : (retryChain policy cron fails dur lat f (k + 1)
+          (p.prepareRetry (start + dur k) (policy (p.retries.alreadyTried + 1)))
+          (start + dur k + policy (p.retries.alreadyTried + 1) + lat (k + 1))).map toObs with
+      | nil => simp [hc, onlyLastMaySucceed]
+      | cons y ys =>
+        rw [hc] at this
+        simp [hc, onlyLastMaySucceed, toObs, execOf, h.1, this]
+    · simp [onlyLastMaySucceed]
+
+/-- shape: a non-empty chain starts with the execution of the delivered message -/
+theorem chain_head (fuel k : Nat) (p : Params) (start : Int) :
     ∃ tail, retryChain policy cron fails dur lat (fuel + 1) k p start =
-      { start, params := p,
-        call := report p (!fails k) (start + dur k) cron (policy (p.retries.alreadyTried + 1)) } :: tail := by
-  simp only [retryChain]
-  split
+      execOf policy cron fails dur k p start :: tail := by
+  rw [chain_unfold]; split
   · exact ⟨_, rfl⟩
   · exact ⟨[], rfl⟩
 
-/-- `chain_length`: a job with retries = N (attempt counter t ≤ N when the chain is observed) whose
-    actor keeps failing is executed exactly N − t + 1 more times — N + 1 times per scheduling — for
-    every retry policy, every duration/latency profile; the last execution is answered with nack
-    (or with a reschedule whose counter is reset when the job is recurring). -/
-theorem chain_length (policy : Int → Int) (cron : String → Int → Int) (dur lat : Nat → Int)
-    (n : Nat) : ∀ (p : Params) (k : Nat) (start : Int) (fuel : Nat),
-    p.retries.maxAmount - p.retries.alreadyTried = (n : Int) → n + 1 ≤ fuel →
-    (retryChain policy cron (fun _ => true) dur lat fuel k p start).length = n + 1 ∧
-    (∃ e, (retryChain policy cron (fun _ => true) dur lat fuel k p start).getLast? = some e ∧
-      e.params.retries.alreadyTried = p.retries.maxAmount ∧
-      (e.call = .nack ∨ ∃ now, e.call = .requeue (e.params.prepareReschedule now cron))) := by
-  induction n with
-  | zero =>
-    intro p k start fuel hn hf
-    obtain ⟨f, rfl⟩ : ∃ f, fuel = f + 1 := ⟨fuel - 1, by omega⟩
-    have hlt : ¬ p.retries.alreadyTried < p.retries.maxAmount := by omega
-    have hchain : retryChain policy cron (fun _ => true) dur lat (f + 1) k p start =
-        [{ start, params := p,
-           call := report p false (start + dur k) cron (policy (p.retries.alreadyTried + 1)) }] := by
-      simp [retryChain, hlt]
-    rw [hchain]
-    refine ⟨rfl, ⟨Exec.mk start p (report p false (start + dur k) cron (policy (p.retries.alreadyTried + 1))), rfl,
-      by simp; omega, ?_⟩⟩
-    show report p false _ cron _ = .nack ∨ ∃ now, report p false _ cron _ = .requeue (p.prepareReschedule now cron)
-    unfold report
-    cases hr : isRecurring p
-    · left; simp [hlt]
-    · right; exact ⟨start + dur k, by simp [hlt]⟩
-  | succ n ih =>
-    intro p k start fuel hn hf
-    obtain ⟨f, rfl⟩ : ∃ f, fuel = f + 1 := ⟨fuel - 1, by omega⟩
-    have hlt : p.retries.alreadyTried < p.retries.maxAmount := by omega
-    have hchain : retryChain policy cron (fun _ => true) dur lat (f + 1) k p start =
-        { start, params := p,
-          call := report p false (start + dur k) cron (policy (p.retries.alreadyTried + 1)) } ::
-        retryChain policy cron (fun _ => true) dur lat f (k + 1)
+theorem backoff_ok (hlat : ∀ k, 0 ≤ lat k) (fuel : Nat) : ∀ (k : Nat) (p : Params) (start : Int),
+    backoffOk policy ((retryChain policy cron fails dur lat fuel k p start).map toObs) = true := by
+  induction fuel with
+  | zero => intro k p start; simp [retryChain, backoffOk]
+  | succ f ih =>
+    intro k p start
+    rw [chain_unfold]
+    split
+    · have := ih (k + 1) (p.prepareRetry (start + dur k) (policy (p.retries.alreadyTried + 1)))
+        (start + dur k + policy (p.retries.alreadyTried + 1) + lat (k + 1))
+      cases f with
+      | zero => simp [retryChain, backoffOk]
+      | succ f' =>
+        obtain ⟨tail, ht⟩ := chain_head policy cron fails dur lat f' (k + 1)
           (p.prepareRetry (start + dur k) (policy (p.retries.alreadyTried + 1)))
-          (start + dur k + policy (p.retries.alreadyTried + 1) + lat (k + 1)) := by
-      simp [retryChain, hlt]
-    rw [hchain]
-    have := ih (p.prepareRetry (start + dur k) (policy (p.retries.alreadyTried + 1))) (k + 1)
-      (start + dur k + policy (p.retries.alreadyTried + 1) + lat (k + 1)) f
-      (by simp [Params.prepareRetry]; omega) (by omega)
-    obtain ⟨hlen, e, he, hmax, hcall⟩ := this
-    refine ⟨by simp [hlen], e, ?_, by simpa [Params.prepareRetry] using hmax, hcall⟩
-    rw [List.getLast?_cons_of_ne_nil]
-    · exact he
-    · intro hnil; rw [hnil] at hlen; simp at hlen
+          (start + dur k + policy (p.retries.alreadyTried + 1) + lat (k + 1))
+        rw [ht] at this ⊢
+        simp only [List.map_cons, backoffOk, Bool.and_eq_true, decide_eq_true_eq]
+        refine ⟨?_, by simpa using this⟩
+        have := hlat (k + 1)
+        simp [toObs, execOf]; omega
+    · simp [backoffOk]
 
-/-- `counter_bounded`: without a forced retry the attempt counter never exceeds the budget — every
-    execution of a chain that starts within budget is delivered with `already_tried ≤ max_amount`. -/
-theorem counter_bounded (policy : Int → Int) (cron : String → Int → Int) (fails : Nat → Bool)
-    (dur lat : Nat → Int) (fuel : Nat) : ∀ (k : Nat) (p : Params) (start : Int),
+theorem length_le (fuel : Nat) : ∀ (k : Nat) (p : Params) (start : Int),
+    p.retries.alreadyTried ≤ p.retries.maxAmount →
+    ((retryChain policy cron fails dur lat fuel k p start).length : Int)
+      ≤ p.retries.maxAmount - p.retries.alreadyTried + 1 := by
+  induction fuel with
+  | zero => intro k p start h; simp [retryChain]; omega
+  | succ f ih =>
+    intro k p start h
+    rw [chain_unfold]
+    split
+    · next hc =>
+      have := ih (k + 1) (p.prepareRetry (start + dur k) (policy (p.retries.alreadyTried + 1)))
+        (start + dur k + policy (p.retries.alreadyTried + 1) + lat (k + 1))
+        (by simp only [tried_prepareRetry, max_prepareRetry]; omega)
+      simp only [tried_prepareRetry, max_prepareRetry] at this
+      simp only [List.length_cons]
+      push_cast
+      omega
+    · simp; omega
+
+/-- final place implied by the broker call that ends the chain -/
+def finalOf (recurring : Bool) : BCall → Final
+  | .ack => .acked
+  | .nack => .dead
+  | .requeue _ => if recurring then .rescheduled else .other
+  | .reject => .other
+
+/-- the last execution of the chain: if it failed the budget is spent (exactly N+1 executions) and
+    the message is dead-lettered (rescheduled if recurring); if it succeeded it is acked
+    (rescheduled if recurring) -/
+theorem last_ok (fuel : Nat) : ∀ (k : Nat) (p : Params) (start : Int),
+    p.retries.alreadyTried ≤ p.retries.maxAmount →
+    (p.retries.maxAmount - p.retries.alreadyTried + 1 ≤ (fuel : Int)) →
+    ∃ e, (retryChain policy cron fails dur lat fuel k p start).getLast? = some e ∧
+      (e.failed = true →
+        ((retryChain policy cron fails dur lat fuel k p start).length : Int)
+            = p.retries.maxAmount - p.retries.alreadyTried + 1 ∧
+        finalOf (isRecurring p) e.call = (if isRecurring p then .rescheduled else .dead)) ∧
+      (e.failed = false →
+        finalOf (isRecurring p) e.call = (if isRecurring p then .rescheduled else .acked)) := by
+  induction fuel with
+  | zero => intro k p start h hf; omega
+  | succ f ih =>
+    intro k p start h hf
+    rw [chain_unfold]
+    split
+    · next hc =>
+      have hrec : isRecurring (p.prepareRetry (start + dur k) (policy (p.retries.alreadyTried + 1)))
+          = isRecurring p := by simp [Params.prepareRetry, isRecurring]
+      obtain ⟨e, he, h1, h2⟩ := ih (k + 1)
+        (p.prepareRetry (start + dur k) (policy (p.retries.alreadyTried + 1)))
+        (start + dur k + policy (p.retries.alreadyTried + 1) + lat (k + 1))
+        (by simp only [tried_prepareRetry, max_prepareRetry]; omega)
+        (by simp only [tried_prepareRetry, max_prepareRetry]; omega)
+      have hne : retryChain policy cron fails dur lat f (k + 1)
+          (p.prepareRetry (start + dur k) (policy (p.retries.alreadyTried + 1)))
+          (start + dur k + policy (p.retries.alreadyTried + 1) + lat (k + 1)) ≠ [] := by
+        intro hnil; rw [hnil] at he; simp at he
+      refine ⟨e, by rw [List.getLast?_cons_of_ne_nil hne]; exact he, ?_, ?_⟩
+      · intro hfail
+        have := h1 hfail
+        rw [hrec] at this
+        simp only [tried_prepareRetry, max_prepareRetry] at this
+        refine ⟨?_, this.2⟩
+        simp only [List.length_cons]; push_cast; omega
+      · intro hok; have := h2 hok; rwa [hrec] at this
+    · next hc =>
+      refine ⟨execOf policy cron fails dur k p start, rfl, ?_, ?_⟩
+      · intro hfail
+        simp only [execOf] at hfail
+        have hlt : ¬ p.retries.alreadyTried < p.retries.maxAmount := fun hl => hc ⟨hfail, hl⟩
+        refine ⟨by simp; omega, ?_⟩
+        simp only [execOf, report, hfail, hlt, decide_false, Bool.and_false, Bool.not_true]
+        cases isRecurring p <;> simp [finalOf]
+      · intro hok
+        simp only [execOf] at hok
+        simp only [execOf, report, hok, Bool.not_false, Bool.not_true, Bool.false_and]
+        cases isRecurring p <;> simp [finalOf]
+
+/-- **C04, full statement**: for every N ≥ 0, every failure pattern over the attempts, every retry
+    policy, every duration profile and every non-negative delivery latency, recurring or not — the
+    chain of executions of one scheduling of a job with retries = N satisfies `chainOk`:
+    counters 0,1,2,…; every execution but the last failed; at most N+1 executions; exactly N+1 and
+    dead-lettered (rescheduled if recurring) when all failed; a success ends the chain with an ack
+    (reschedule if recurring); the k-th retry starts no earlier than the failure plus policy(k). -/
+theorem chain_ok (p : Params) (start : Int) (fuel : Nat)
+    (h0 : p.retries.alreadyTried = 0) (hN : 0 ≤ p.retries.maxAmount)
+    (hfuel : p.retries.maxAmount + 1 ≤ (fuel : Int)) (hlat : ∀ k, 0 ≤ lat k) :
+    ∃ e, (retryChain policy cron fails dur lat fuel 0 p start).getLast? = some e ∧
+      chainOk p.retries.maxAmount (isRecurring p) policy
+        ((retryChain policy cron fails dur lat fuel 0 p start).map toObs)
+        (finalOf (isRecurring p) e.call) = true := by
+  obtain ⟨e, he, h1, h2⟩ := last_ok policy cron fails dur lat fuel 0 p start (by omega) (by omega)
+  refine ⟨e, he, ?_⟩
+  have hc := counters_ok policy cron fails dur lat fuel 0 p start
+  rw [h0] at hc
+  have hl := length_le policy cron fails dur lat fuel 0 p start (by omega)
+  have hlast : ((retryChain policy cron fails dur lat fuel 0 p start).map toObs).getLast? = some (toObs e) := by
+    rw [List.getLast?_map, he]; rfl
+  simp only [chainOk, hc, only_last_may_succeed, backoff_ok policy cron fails dur lat hlat, Bool.true_and,
+    Bool.and_eq_true, decide_eq_true_eq, List.length_map, hlast]
+  refine ⟨by omega, ?_⟩
+  cases hf : e.failed with
+  | true =>
+    have := h1 hf
+    simp only [toObs, hf, if_true, Bool.and_eq_true, decide_eq_true_eq]
+    refine ⟨by omega, ?_⟩
+    cases hr : isRecurring p <;> simp [hr] at this ⊢ <;> simp [this.2]
+  | false =>
+    have := h2 hf
+    simp only [toObs, hf]
+    cases hr : isRecurring p <;> simp [hr] at this ⊢ <;> simp [this]
+
+/-- `chain_length` (corollary): an always-failing job with retries = N is executed exactly N+1 times -/
+theorem chain_length (p : Params) (start : Int) (fuel : Nat)
+    (h0 : p.retries.alreadyTried = 0) (hN : 0 ≤ p.retries.maxAmount)
+    (hfuel : p.retries.maxAmount + 1 ≤ (fuel : Int)) :
+    ((retryChain policy cron (fun _ => true) dur lat fuel 0 p start).length : Int) = p.retries.maxAmount + 1 := by
+  obtain ⟨e, he, h1, _⟩ := last_ok policy cron (fun _ => true) dur lat fuel 0 p start (by omega) (by omega)
+  have hfail : e.failed = true := by
+    have : ∀ (f k : Nat) (q : Params) (s : Int), ∀ x ∈ retryChain policy cron (fun _ => true) dur lat f k q s,
+        x.failed = true := by
+      intro f
+      induction f with
+      | zero => intro k q s x hx; simp [retryChain] at hx
+      | succ f ih =>
+        intro k q s x hx
+        rw [chain_unfold] at hx
+        split at hx
+        · simp only [List.mem_cons] at hx
+          rcases hx with hx | hx
+          · subst hx; rfl
+          · exact ih _ _ _ x hx
+        · simp only [List.mem_singleton] at hx; subst hx; rfl
+    exact this _ _ _ _ e (List.mem_of_getLast? he)
+  have := (h1 hfail).1
+  omega
+
+/-- `counter_bounded`: without a forced retry the attempt counter never exceeds the budget -/
+theorem counter_bounded (fuel : Nat) : ∀ (k : Nat) (p : Params) (start : Int),
     p.retries.alreadyTried ≤ p.retries.maxAmount →
     ∀ e ∈ retryChain policy cron fails dur lat fuel k p start,
       e.params.retries.alreadyTried ≤ e.params.retries.maxAmount ∧
@@ -97,51 +271,24 @@ theorem counter_bounded (policy : Int → Int) (cron : String → Int → Int) (
   | zero => intro k p start _ e he; simp [retryChain] at he
   | succ f ih =>
     intro k p start hle e he
-    simp only [retryChain] at he
+    rw [chain_unfold] at he
     split at he
     · next hc =>
-      simp only [Bool.and_eq_true, decide_eq_true_eq] at hc
       simp only [List.mem_cons] at he
       rcases he with he | he
       · subst he; exact ⟨hle, rfl⟩
-      · have := ih (k + 1) _ _ (by simp [Params.prepareRetry]; omega) e he
-        simpa [Params.prepareRetry] using this
+      · have := ih (k + 1) _ _ (by simp only [tried_prepareRetry, max_prepareRetry]; omega) e he
+        simpa using this
     · simp only [List.mem_singleton] at he; subst he; exact ⟨hle, rfl⟩
 
-/-- `success_ends`: a success at any attempt ends the chain — with an ack for a one-shot job. -/
-theorem success_ends (policy : Int → Int) (cron : String → Int → Int) (fails : Nat → Bool)
-    (dur lat : Nat → Int) (fuel k : Nat) (p : Params) (start : Int) (hs : fails k = false)
+/-- `success_ends`: a success at any attempt ends the chain — with an ack for a one-shot job -/
+theorem success_ends (fuel k : Nat) (p : Params) (start : Int) (hs : fails k = false)
     (hnr : isRecurring p = false) :
-    retryChain policy cron fails dur lat (fuel + 1) k p start = [{ start, params := p, call := .ack }] := by
-  simp [retryChain, hs, report, hnr]
+    (retryChain policy cron fails dur lat (fuel + 1) k p start).map (·.call) = [.ack] := by
+  rw [chain_unfold]
+  simp [hs, execOf, report, hnr]
 
-/-- `not_before_backoff`: the k-th retry is scheduled at failure time + policy(k); together with the
-    broker's never-early theorem (C05) it is therefore not delivered before that instant. In the
-    chain: the next execution carries that due time and starts no earlier (non-negative latency). -/
-theorem not_before_backoff (policy : Int → Int) (cron : String → Int → Int) (fails : Nat → Bool)
-    (dur lat : Nat → Int) (fuel k : Nat) (p : Params) (start : Int)
-    (hf : fails k = true) (hlt : p.retries.alreadyTried < p.retries.maxAmount)
-    (hlat : 0 ≤ lat (k + 1)) :
-    ∃ e rest, retryChain policy cron fails dur lat (fuel + 2) k p start =
-        { start, params := p, call := .requeue (p.prepareRetry (start + dur k) (policy (p.retries.alreadyTried + 1))) }
-          :: e :: rest ∧
-      e.params.delay.nextExecutionTime = some (start + dur k + policy (p.retries.alreadyTried + 1)) ∧
-      start + dur k + policy (p.retries.alreadyTried + 1) ≤ e.start := by
-  obtain ⟨tail, ht⟩ := chain_head policy cron fails dur lat fuel (k + 1)
-    (p.prepareRetry (start + dur k) (policy (p.retries.alreadyTried + 1)))
-    (start + dur k + policy (p.retries.alreadyTried + 1) + lat (k + 1))
-  refine ⟨{ start := start + dur k + policy (p.retries.alreadyTried + 1) + lat (k + 1),
-             params := p.prepareRetry (start + dur k) (policy (p.retries.alreadyTried + 1)),
-             call := report (p.prepareRetry (start + dur k) (policy (p.retries.alreadyTried + 1))) (!fails (k + 1))
-               (start + dur k + policy (p.retries.alreadyTried + 1) + lat (k + 1) + dur (k + 1)) cron
-               (policy ((p.prepareRetry (start + dur k) (policy (p.retries.alreadyTried + 1))).retries.alreadyTried + 1)) },
-           tail, ?_, ?_, ?_⟩
-  · rw [← ht]
-    simp [retryChain, hf, hlt, report]
-  · simp [Params.prepareRetry]
-  · simp; omega
-
--- Non-vacuity: N = 2, always failing, default-like policy.
+-- Non-vacuity: N = 2, always failing, linear policy.
 example :
     let p : Params := { retries := { maxAmount := 2, alreadyTried := 0 } }
     (retryChain (fun k => 10000000 * k) (fun _ n => n) (fun _ => true) (fun _ => 1) (fun _ => 0) 5 0 p 0).map
